@@ -32,7 +32,7 @@ PROPS = {
         explanation='Verbatim body of Package::verify_digests: Ok <==> every recorded digest equals the digest recomputed from ser(header) / payload (both directions), Err is DigestMismatchError unless the payload algorithm is unsupported, unsupported algorithm => Err, no panic obligations left; all packages and all corruption positions at once because hashes are uninterpreted.',
     ),
     'C04': dict(
-        level='proof', verus=['c01_parse', 'c03_digests', 'c02_verify_sig', 'c16_offsets'],
+        level='proof', verus=['c01_parse', 'c03_digests', 'c02_verify_sig', 'c16_offsets', 'c07_payload', 'c07_iter'],
         trusted_base=[A_TOOLS, A_EXTRACT, 'A-IO std Read/Take contracts; A-LEAF-LINK leaf contracts = Kani harness assertion sets; R17: every slicing expression is rewritten to a prelude function whose PRECONDITION is the no-panic condition, so each slice is a proof obligation'],
         assumptions=['claimed per function, not for the reader as a whole: NOT covered are the decompressors (zstd/xz FFI, flate2), the pgp packet parser behind signature_key_ids, the iterator-adapter accessor code of package.rs, and heap proportionality beyond the explicit allocation requests (Header::parse buffer via Take, reserve_exact bound, cpio name buffer)',
                      'Verus: absence of overflow / out-of-bounds / unwrap-on-None / debug_assert failure is an automatic obligation of every extracted body; Kani: the same plus pointer checks, bit-precise'],
@@ -46,11 +46,11 @@ PROPS = {
         explanation='parse_header (verbatim, incl. the real decode loop): for EVERY entry of every accepted header the stored data equals an independent decoding of the store bytes written as spec functions (strings up to the first NUL, integer arrays big-endian at full length, string / i18n arrays item by item with terminators skipped, binary verbatim) - postcondition decoded(entry, store), unbounded; typed getters return the first entry with the tag iff its type matches, else the documented error (Kani, 3 entries); get_installed_size prefers LONGSIZE then SIZE.',
     ),
     'C07': dict(
-        level='proof', verus=['c07_payload'],
+        level='proof', verus=['c07_payload', 'c07_iter'],
         trusted_base=[A_TOOLS, A_EXTRACT, 'A-IO std Read / Write / Take / io::copy contracts (prelude/read.rs, io.rs)', 'A-64BIT: usize is 64 bits (global size_of usize == 8)', 'A-SLICE-LEN: slices never exceed isize::MAX bytes'],
-        assumptions=['PARTIAL: decided are the cpio framing arithmetic and size accounting of src/rpm/payload.rs (pad, Reader::read, Reader::finish, Writer::write / try_write_header / do_finish and their composition). NOT covered: compressors / decompressors (FFI), hex header field formatting and parsing (format!, from_str_radix), Reader::new, builder file ordering, FileIterator pairing, digest equality of content',
+        assumptions=['PARTIAL: decided are the cpio framing arithmetic and size accounting of src/rpm/payload.rs (pad, Reader::read, Reader::finish, Writer::write / try_write_header / do_finish and their composition). NOT covered: compressors / decompressors (FFI), hex header field formatting and parsing (format!, from_str_radix), the path matching inside Reader::file_entry_index (&str code), builder file ordering, digest equality of content',
                      'the header produced by Builder::into_header being a multiple of 4 bytes is a precondition of the composition lemma, not proved (format! based)'],
-        explanation='Verbatim bodies: pad(len) is (4 - len mod 4) mod 4 NUL bytes; Reader::read never hands out more than file_size - bytes_read, accounts exactly what it handed out and cannot overflow; Reader::finish consumes the rest of the entry plus its padding; Writer::write accepts data only while it fits the announced size and emits the header first; header + full body + finish yields hdr ++ body ++ NUL padding with 4-byte alignment.',
+        explanation='Verbatim bodies: FileIterator::next pairs the content with the header file entry the archive entry NAMES (index returned by Reader::file_entry_index), never by position; Reader::new bounds the name buffer, bounds-checks the stripped file index and sizes the entry from the cpio header resp. the header file entry; pad(len) is (4 - len mod 4) mod 4 NUL bytes; Reader::read never hands out more than file_size - bytes_read, accounts exactly what it handed out and cannot overflow; Reader::finish consumes the rest of the entry plus its padding; Writer::write accepts data only while it fits the announced size and emits the header first; header + full body + finish yields hdr ++ body ++ NUL padding with 4-byte alignment.',
     ),
     'C08': dict(
         level='proof', verus=['c10_sign'],
